@@ -53,7 +53,34 @@ type verifOp struct {
 	Code  int     `json:"code"`  // done: -1 nil error, -2 plain (non status) error, else grpc status code
 	Codes []int   `json:"codes"` // done: optional, the code to use per position of the completed conn
 	Flags int     `json:"flags"` // done: the rest of balancer.DoneInfo as gRPC fills it: 1 BytesSent, 2 BytesReceived, 4 Trailer, 8 ServerLoad
+	Msg   int     `json:"msg"`   // done: which status message the error carries (see verifMessages)
 	Dt    int64   `json:"dt"`    // adv: nanoseconds
+}
+
+// verifMessages are the status messages a completion error may carry; index 1 is what
+// status.FromContextError(context.DeadlineExceeded) produces, 4 what FromContextError(context.Canceled) produces.
+var verifMessages = []string{"verif", "context deadline exceeded", "deadline", "", "context canceled",
+	"transport is closing", "rpc error: code = OK desc = 超时 deadline exceeded while waiting for the backend ..."}
+
+// verifError builds the error of a completion: nil (-1), a plain error (-2) or a status error with the code and
+// the chosen message. For DeadlineExceeded/Canceled with the context message the error is made the way grpc
+// makes it when the caller's context fires: status.FromContextError.
+func verifError(code, msg int) error {
+	if msg < 0 || msg >= len(verifMessages) {
+		msg = 0
+	}
+	switch {
+	case code == -1:
+		return nil
+	case code == -2:
+		return errors.New(verifMessages[msg])
+	case codes.Code(code) == codes.DeadlineExceeded && msg == 1:
+		return status.FromContextError(context.DeadlineExceeded).Err()
+	case codes.Code(code) == codes.Canceled && msg == 4:
+		return status.FromContextError(context.Canceled).Err()
+	default:
+		return status.Error(codes.Code(code), verifMessages[msg])
+	}
 }
 
 type verifCase struct {
@@ -216,14 +243,7 @@ func TestVerifDriver(t *testing.T) {
 					code = op.Codes[tk.conn]
 				}
 				st.Code = code
-				var err error
-				switch {
-				case code == -1:
-				case code == -2:
-					err = errors.New("plain")
-				default:
-					err = status.Error(codes.Code(code), "verif")
-				}
+				err := verifError(code, op.Msg)
 				info := balancer.DoneInfo{Err: err, BytesSent: op.Flags&1 != 0, BytesReceived: op.Flags&2 != 0}
 				if op.Flags&4 != 0 {
 					info.Trailer = metadata.Pairs("grpc-status", strconv.Itoa(code), "verif", "trailer")
